@@ -409,6 +409,10 @@ def cmd_batch(tier, argv):
     print('%s: %d runs (%s), %d API calls, %d line steps, %d distinct non-trivial histories, %.0fs wall'
           % (PROPERTY, c['evaluations'], c['runs_per_engine'], c['api_calls'], c['line_steps'], c['distinct_nontrivial'], wall))
     wd.cancel()
+    sw = c.get('stratified_preemption_sweep') or {}
+    if sw.get('harness_errors', 0) > max(3, sw.get('runs', 0) // 200):
+        print('HARNESS-ERROR: %d sweep runs failed in the harness' % sw['harness_errors'])
+        trouble = True
     if herr:
         print('HARNESS-ERROR: %d runs failed in the harness, e.g. %s' % (len(herr), herr[0]['harness_error'][-400:]))
         if len(herr) > max(3, len(results) // 200):
